@@ -33,12 +33,13 @@ type rnode struct {
 }
 
 type gen struct {
-	u      *universe
-	r      *lib.Rng
-	nextID int
-	pool   map[string][]*rnode // goName -> finished records
-	maxD   int
-	share  int // percent
+	u       *universe
+	r       *lib.Rng
+	nextID  int
+	pool    map[string][]*rnode // goName -> finished records
+	maxD    int
+	share   int  // percent
+	noWhole bool // histories: never address an embedded struct by its own key (later hsets use promoted names)
 }
 
 func newGen(u *universe, r *lib.Rng) *gen {
@@ -216,6 +217,19 @@ func (g *gen) record(s *sinfo, slotTy string, depth int) *rnode {
 		if d.emb || strings.Contains(d.ty, "?") {
 			continue
 		}
+		// a key names ONE field: with a name clash, the shallowest field (Go's selector rule)
+		dup := -1
+		for i, c := range cand {
+			if c.key == d.key {
+				dup = i
+			}
+		}
+		if dup >= 0 {
+			if d.depth < cand[dup].depth {
+				cand[dup] = d
+			}
+			continue
+		}
 		cand = append(cand, d)
 	}
 	// shuffle
@@ -240,10 +254,67 @@ func (g *gen) record(s *sinfo, slotTy string, depth int) *rnode {
 		n.keys = append(n.keys, key)
 		n.vals = append(n.vals, g.value(d.ty, depth))
 	}
+	g.wholeEmbedded(s, n, depth)
 	if s.reg != "" && slotTy[0] != 'V' {
 		g.pool[s.goName] = append(g.pool[s.goName], n)
 	}
 	return n
+}
+
+// wholeEmbedded: sometimes address an embedded struct BOTH through promoted field names and through the embedded
+// struct's own key: some of the promoted entries move into a record of the embedded struct's type given under that
+// key, e.g. (snoopy id:3 spanCm:7 plane:(plane speed:5)).  The two ways name disjoint fields.
+func (g *gen) wholeEmbedded(s *sinfo, n *rnode, depth int) bool {
+	did := false
+	if g.noWhole {
+		return false
+	}
+	for _, e := range s.dets {
+		if !e.emb || len(e.path) != 1 || e.ty[0] != 'V' || g.r.Intn(4) != 0 {
+			continue
+		}
+		es := g.u.structs[e.ty[2:]]
+		if es == nil || es.reg == "" {
+			continue
+		}
+		clash := false
+		for _, k := range n.keys {
+			clash = clash || k == e.key
+		}
+		if clash {
+			continue
+		}
+		child := &rnode{id: g.newID(), tn: es.reg, slotTy: e.ty}
+		var keys []string
+		var vals []*val
+		for i, k := range n.keys {
+			moved := false
+			for _, d := range s.dets { // the det this key was generated from: direct field of the embedded struct
+				if !d.emb && len(d.path) == 2 && d.path[0] == e.path[0] && (d.key == k || lowerFirst(d.key) == k) && g.r.Intn(2) == 0 {
+					// only if the outer struct's own resolution of k is that field (no clash with an outer field)
+					own := false
+					for _, o := range s.dets {
+						own = own || (len(o.path) == 1 && o.key == d.key)
+					}
+					if !own {
+						child.keys = append(child.keys, d.key)
+						child.vals = append(child.vals, n.vals[i])
+						moved = true
+					}
+					break
+				}
+			}
+			if !moved {
+				keys = append(keys, k)
+				vals = append(vals, n.vals[i])
+			}
+		}
+		pos := g.r.Intn(len(keys) + 1)
+		n.keys = append(append(append([]string{}, keys[:pos]...), e.key), keys[pos:]...)
+		n.vals = append(append(append([]*val{}, vals[:pos]...), &val{k: 'R', rec: child}), vals[pos:]...)
+		did = true
+	}
+	return did
 }
 
 // anyValue: a value of an arbitrary kind (for the wrong-kind stream and the kind x field matrix).
